@@ -203,8 +203,40 @@ func (r *run) torn(p *replica, e Ev) {
 		r.probe("torn-skipped")
 		return
 	}
-	// deliver the intact prefix
+	// deliver the intact prefix; with an odd A its last (up to three) units stay back and arrive in the
+	// SAME delivery as the truncated unit - as one pull hands them over - so that the incomplete unit
+	// is not at the start of what is received
+	keep := 0
+	if e.A%2 == 1 {
+		keep = 1 + mod(e.A/2, 3)
+	}
+	var pre []*model.Operation
+	var preL []*ref.LOp
 	for p.recv < start {
+		// foreign units between p.recv and start
+		cnt := 0
+		for i := p.recv; i < start; {
+			j := i + 1
+			if r.log[i].unit != 0 {
+				for j < start && r.log[j].unit == r.log[i].unit {
+					j++
+				}
+			}
+			if r.log[i].from != p.idx {
+				cnt++
+			}
+			i = j
+		}
+		if cnt <= keep {
+			for i := p.recv; i < start; i++ {
+				if r.log[i].from != p.idx {
+					pre = append(pre, cloneOp(r.log[i].op))
+					preL = append(preL, r.log[i].lop)
+				}
+			}
+			p.recv = start
+			break
+		}
 		r.deliver(p, 1, false)
 		if p.recv > start {
 			return // units were grouped differently; give up on this event
@@ -213,7 +245,7 @@ func (r *run) torn(p *replica, e Ev) {
 	before := r.observe(p)
 	n := end - start
 	cut := 1 + mod(e.A, n-1) // 1..n-1 operations of the unit arrive
-	var ops []*model.Operation
+	ops := append([]*model.Operation{}, pre...)
 	for k := start; k < start+cut; k++ {
 		ops = append(ops, cloneOp(r.log[k].op))
 	}
@@ -226,6 +258,15 @@ func (r *run) torn(p *replica, e Ev) {
 			err = e2
 		}
 	})
+	for _, l := range preL {
+		r.see(p, l)
+	}
+	if len(pre) > 0 {
+		r.probe("torn-after-other-operations")
+		if p.tw != nil {
+			r.twinRemote(p, pre)
+		}
+	}
 	r.probe("torn-delivered")
 	r.res.Faults["truncated-unit"]++
 	if msg != "" {
@@ -233,6 +274,11 @@ func (r *run) torn(p *replica, e Ev) {
 		panic(abortRun{})
 	}
 	after := r.observe(p)
+	if len(pre) > 0 {
+		// the operations in front of the unit are applied; that nothing of the unit is, is decided by the
+		// reference comparison that follows every step (the unit's operations are not "seen")
+		before = after
+	}
 	if d := before.diff(after); d != "" {
 		r.fail("tx", "C09.remote-none", r.cfg.Kind+"/partial-apply", "r%d: truncated unit (%d of %d operations) changed %s:\n  before: %s\n  after : %s", p.idx, cut, n, d, before.brief(), after.brief())
 	}
